@@ -10,7 +10,8 @@ dimension, textual position, nesting, and the list of names it placed under a `d
 precedence of the property text (constant, parameter, top-level input, differentiated, algebraic;
 String constants/parameters in the string lists; one `der(x)` per state; declaration order inside
 each list; outputs = output-prefixed states then algebraics) and compared name by name with
-`Model.states/der_states/alg_states/inputs/parameters/constants/string_*/outputs`.
+`Model.states/der_states/alg_states/inputs/parameters/constants/string_*/outputs`; and every symbol of the
+generated (initial) equations must be `time` or a listed variable / derivative (no variable outside the categories).
 
 Tie: the flat class handed to `annotate_states` (captured at that stage boundary, before it is
 annotated) is serialised — symbol table + the whole AST as a rose tree in TreeWalker order — and
@@ -30,7 +31,8 @@ RULE = ("one case = one model: (text) a generated Modelica file with 0-3 compone
         "at the top level and in the component classes (scalars and arrays), mixing variability (none/discrete/parameter/constant) x causality (none/input/output) x type "
         "(Real/Integer/Boolean/String) x scalar/vector/empty-array declarations, with der() applied directly, inside "
         "expressions, on whole expressions, in bindings, in initial equations, in component-class equations, on component "
-        "variables from outside, on vector elements and in for-loops; (ast) a hand-built flat class with arbitrary prefix "
+        "variables from outside, on vector elements and in (several) for-loops over one array in equations and initial "
+        "equations, a model variable named like the loop index; (ast) a hand-built flat class with arbitrary prefix "
         "lists (duplicates, 'state', orders with ties) the parser cannot produce; (annot) a hand-built class with deep "
         "random equation/expression trees run through annotate_states only. non-trivial = at least one variable placed "
         "under der() and at least three different categories non-empty; distinct = distinct case description")
